@@ -1,4 +1,4 @@
-import Tibc.Lemmas.AckOnce
+import Tibc.Lemmas.OriginAck
 /-
   C03 — Acknowledgements are authentic, written once and processed at most once.
   PROPERTY THEOREMS ONLY.
@@ -59,6 +59,21 @@ theorem recorded_ack_is_app_ack (s : State) (p : Packet) (π : Proof) (h : Nat) 
   unfold msgRecvPacket
   rw [hr]
   simp [hd, hrt, ha]
+
+/-! ### end to end: an accepted acknowledgement was really written by a chain's application layer -/
+
+/-- **End to end.** In every history of operations on any number of chains, whenever a chain
+    accepts an acknowledgement for a packet — directly from the destination or through a relay
+    chain — some chain's `WriteAcknowledgement` (the destination's application answering the packet,
+    or a relay chain refusing it) recorded an acknowledgement under exactly that
+    `(source, destination, sequence)` with the same hash (`H a' = H ack`). -/
+theorem ack_accepted_was_written (ops : List Op) (c : Chain) (p : Packet) (a : Data) (π : Proof) (h : Nat)
+    (hok : (deliver H Hc ((run H Hc World.init ops) c) (.acknowledgement p a π h)).2 = .ok) :
+    ∃ a' x, H a' = H a ∧ (p.key, a') ∈ ((run H Hc World.init ops) x).core.ackLog := by
+  have hi := run_ackOriginInv H Hc ops
+  obtain ⟨_, _, cl, sn, hcl, _, _, hcons, _, hsn⟩ := deliver_ack_ok H Hc _ p a π h hok
+  obtain ⟨a', x, hd, hm⟩ := hi.snaps c _ cl h sn hcl hcons p.key _ hsn
+  exact ⟨a', x, hd.symm, hm⟩
 
 /-! ### processed at most once, over all histories -/
 
